@@ -128,7 +128,7 @@ class MempoolRun(IndexRun):
 
     def on_handover(self, touched, height):
         best_h = self.tree.blocks[self.best].height
-        quiet = (not self.since_list_env and self.db.state.height == best_h == height
+        quiet = (not self.since_list_env and not self.window and self.db.state.height == best_h == height
                  and bytes(self.db.state.tip) == self.tree.blocks[self.best].hash)
         self.pending_handover = {'touched': sorted(self.scripts.get(hx, 0) for hx in touched), 'h': height, 'quiet': quiet}
 
@@ -245,7 +245,8 @@ class MempoolRun(IndexRun):
             elif k == 'list':
                 g = self.mp_gate('mp_list')
                 if g:
-                    self.since_list_env = False
+                    # not undisturbed while a flush has made its height visible without having committed
+                    self.since_list_env = bool(self.window)
                     g.release()
             elif k == 'recheck':
                 g = self.mp_gate('mp_height')
@@ -385,7 +386,7 @@ class MempoolRun(IndexRun):
             g = self.mp_gate(name)
             if g:
                 if name == 'mp_list':
-                    self.since_list_env = False
+                    self.since_list_env = bool(self.window)
                 g.release()
                 self.step_mempool()
                 return True
